@@ -4,7 +4,8 @@
 (* Consumes the ndjson file written by the harness crate c06 from the real *)
 (* RandomForestClassifier / RandomForestRegressor:                         *)
 (*                                                                         *)
-(*   ForestFit   {key, base, digest, fdigest, status, in:{kind, n, p, X,   *)
+(*   ForestFit   {key, base, digest, fdigest, status, eqSelf, eqRefit,     *)
+(*                in:{kind, n, p, X,                                       *)
 (*                xDen, Xq, y, yHex, nTrees, m, maxDepth, msl, mss, crit,  *)
 (*                keep, seed},     -- X, Xq: numerators over xDen          *)
 (*                obs}                                                     *)
@@ -69,6 +70,7 @@ Consistent(e) == /\ e.obs.kind = e.in.kind /\ e.obs.nTrees = e.in.nTrees
 FitClauseUD(e, ud) ==
     IF e.status # "ok" THEN "FitFailed"
     ELSE IF ~FitGuard(seen, e.key, e.digest) THEN "Reproducible"
+    ELSE IF ~EqualFits(e.eqSelf, e.eqRefit) THEN "EqualFits"
     ELSE IF ~Consistent(e) THEN "Consistent"
     ELSE FirstFail(e.obs, TRUE, ud)
 
